@@ -166,7 +166,7 @@ func callMethod(t *tensor.Dense, name string, args ...interface{}) (r *tensor.De
 
 func binaryCall(w *World, kind, f, form string, h, b int, opts []tensor.FuncOpt) (*tensor.Dense, error) {
 	t := w.T(h)
-	if name := methodNames[f]; w.useMethod() && reflect.ValueOf(t).MethodByName(name).IsValid() {
+	if name := methodNames[f]; form != "TZ" && form != "ZT" && w.useMethod() && reflect.ValueOf(t).MethodByName(name).IsValid() {
 		switch form {
 		case "TT":
 			return callMethod(t, name, w.T(b), opts)
@@ -185,6 +185,10 @@ func binaryCall(w *World, kind, f, form string, h, b int, opts []tensor.FuncOpt)
 	var r tensor.Tensor
 	var err error
 	switch form {
+	case "TZ": // the scalar as a rank-0 tensor
+		r, err = fn(t, w.T(b), opts...)
+	case "ZT":
+		r, err = fn(w.T(b), t, opts...)
 	case "TT":
 		r, err = fn(t, w.T(b), opts...)
 	case "TS":
@@ -319,7 +323,7 @@ func (w *World) intZeroDivisor(form string, h, b int) bool {
 	switch form {
 	case "TS":
 		return isZero(w.Cfg.Pal.Const(w.Cfg.D, b))
-	case "ST":
+	case "ST", "ZT":
 		els, err := ElemsOf(w.T(h))
 		if err != nil {
 			return false
@@ -329,7 +333,7 @@ func (w *World) intZeroDivisor(form string, h, b int) bool {
 				return true
 			}
 		}
-	case "TT":
+	case "TT", "TZ":
 		els, err := ElemsOf(w.T(b))
 		if err != nil {
 			return false
